@@ -5,7 +5,7 @@ from __future__ import annotations
 import ast
 
 from ..models import ModelEval, PyObj, Marker, Raised, fold
-from ..peval import Model, Unsupported, RaisedInModel, ProgramRaised
+from ..peval import Model, Unsupported
 from ..source import AnalysisError
 from ..specs import npmodel, operators as optab
 from .core_models import slice_key, RawTok, NdTok, ARRAY_Q, VECTOR_Q
@@ -347,7 +347,7 @@ def check_binary_op_fold(run, tree, stricts=(True, False)):
                 run.unresolved(construct, fi.where(), "cannot fold: %s" % e)
     # a Vector on the right: NotImplemented (Python then tries the reflected operator of the Vector)
     try:
-        from .core_models import core_hooks, make_vector
+        pass
         lhs = new_array(tree, hk, "A", "m")
         v = PyObj(tree.cls(VECTOR_Q))
         res, ev = fold(tree, BQ, [NpFunc("op", objects=True), lhs, v], {}, hooks=hk)
